@@ -1,11 +1,19 @@
 import Skc.Drv.Json
 import Skc.Drv.OpsC03
+import Skc.Drv.OpsAgg
+import Skc.Drv.OpsC01
+import Skc.Drv.OpsC18
+import Skc.Drv.OpsC14
 /-! Dispatch of driver operations to the executable model: one handler per property file. -/
 open Lean
 namespace Skc.Drv
 
 def handlers : List (String → Json → Option (Except String Json)) :=
   [ handleC03
+  , handleAgg
+  , handleC01
+  , handleC18
+  , handleC14
   ]
 
 def handle (j : Json) : Except String Json := do
